@@ -3,7 +3,7 @@ SPEC = {
     "components": [
         {"comp": "antiamp", "module": "QV.Model.AntiAmp", "quick": 1500, "thorough": 40000},
         {"comp": "endpoint_gate", "module": "QV.Model.StatelessReset", "quick": 1000, "thorough": 20000},
-        {"comp": "sim_c07", "module": "QV.Sys.MonC07", "quick": 48, "thorough": 1500},
+        {"comp": "sim_c07", "module": "QV.Sys.MonC07", "quick": 96, "thorough": 1500},
     ],
     "assumptions": [
         "the datagram loop of Connection::poll_transmit is abstracted to its use of anti_amplification_blocked (the hook drives the real predicate with the loop's argument expression); the call sites that update the counters and the transmit kinds that bypass the predicate are covered by the simulator-level check, not here",
